@@ -50,10 +50,6 @@ package config
 //@   ensures result1 == nil ==> result0 > 0
 //@ func secrets.ValidateRef
 //@   trusted
-//@ func compileForwardAuthConfig
-//@   trusted
-//@   modifies ValidationResult.*
-//@   ensures res != nil ==> len(res.Errors) >= old(len(res.Errors))
 //@ func compileMatch
 //@   trusted
 //@   modifies ValidationResult.*
@@ -86,3 +82,13 @@ package config
 //@   ensures [C08:a_compiled_hmac_tolerance_is_unset_or_positive] forall k int :: 0 <= k && k < len(result0.Routes) ==> result0.Routes[k].AuthHMACTolerance >= 0
 //@   ensures [C11:compiled_pull_routes_have_a_nonempty_effective_allowlist] result1.OK ==> forall k int :: 0 <= k && k < len(result0.Routes) && result0.Routes[k].Pull != nil ==> len(result0.Routes[k].Pull.AuthTokens) > 0 || len(result0.PullAPI.AuthTokens) > 0
 //@   ensures [C11:ok_means_no_validation_error] result1.OK <==> len(result1.Errors) == 0
+
+// ---- C08: a declared forward auth is never switched off silently: it is disabled only together with a compile error ----
+//@ func compileForwardAuthConfig
+//@   requires res != nil
+//@   modifies ValidationResult.*
+//@   loop 1 invariant [a_fault_is_always_reported] len(res.Errors) >= old(len(res.Errors)) && (!ok ==> len(res.Errors) > old(len(res.Errors))) && out.Enabled && out.Timeout > 0
+//@   ensures [C08:declared_forward_auth_is_disabled_only_with_a_compile_error] in != nil && !result.Enabled ==> len(res.Errors) > old(len(res.Errors))
+//@   ensures [C08:enabled_forward_auth_has_a_positive_timeout] result.Enabled ==> in != nil && result.Timeout > 0
+//@   ensures [C08:undeclared_forward_auth_is_off] in == nil ==> !result.Enabled
+//@   ensures [errors_only_grow] len(res.Errors) >= old(len(res.Errors))
